@@ -96,6 +96,7 @@ type ReadRec struct {
 	Err     string            // non-empty: the read failed, Got is meaningless
 	Own     map[string]OwnW   // the transaction's own buffered writes at that moment (all keys)
 	ForUpd  uint64            // for locking reads: the for-update ts used
+	Skip    []string          // keys for which the API returned no information by contract
 	Locking bool
 }
 
@@ -320,6 +321,7 @@ func (c *Client) runTxn(h *History, idx int, p Program, rec *TxnRec) bool {
 				ks[i] = []byte(k)
 			}
 			// like TiDB: on a write conflict take a fresh for-update ts and retry (bounded)
+			lockFailed := true // until an attempt succeeds
 			for attempt := 0; attempt < 3; attempt++ {
 				fts := txn.StartTS()
 				if p.Mode.Pessimistic {
@@ -350,6 +352,7 @@ func (c *Client) runTxn(h *History, idx int, p Program, rec *TxnRec) bool {
 					rec.OpErrs = append(rec.OpErrs, "lock:"+errClass(err))
 					break
 				}
+				lockFailed = false
 				seq := h.next()
 				if p.Mode.Pessimistic {
 					for _, k := range keys {
@@ -359,13 +362,27 @@ func (c *Client) runTxn(h *History, idx int, p Program, rec *TxnRec) bool {
 				if op.Kind == "lockrv" && p.Mode.Pessimistic {
 					r := ReadRec{Kind: "lockrv", Keys: keys, Got: map[string]string{}, Own: map[string]OwnW{}, ForUpd: lctx.ForUpdateTS, Locking: true, Seq: seq}
 					for _, k := range keys {
-						if rv, ok := lctx.Values[k]; ok && rv.Exists {
+						rv, ok := lctx.Values[k]
+						if ok && rv.AlreadyLocked {
+							// the key was locked earlier in this transaction: no value is returned by contract
+							r.Skip = append(r.Skip, k)
+							continue
+						}
+						if ok && rv.Exists {
 							r.Got[k] = string(rv.Value)
 						}
 					}
 					rec.Reads = append(rec.Reads, r)
 				}
 				break
+			}
+			if lockFailed && p.Mode.Pessimistic {
+				// a failed locking statement aborts the transaction (a well-formed caller does not
+				// commit writes whose lock it failed to get)
+				_ = txn.Rollback()
+				rec.CommitRetSeq = h.next()
+				rec.Outcome = "rolledback"
+				return true
 			}
 		case "commit":
 			if d := sched.Point(c.ID, sched.KAPI, "commit", nil); d.Kind == sched.Abort {
